@@ -52,7 +52,8 @@ class MsgExplore(Explore):
 
 
 def jobs(tier):
-    return make_jobs(MsgExplore, tier, 2, 3, stepq=8, stept=6) + make_random_jobs(MsgExplore, tier)
+    from harness.phase_dispatch import PhaseDispatch, HoldBack
+    return [PhaseDispatch(), HoldBack()] + make_jobs(MsgExplore, tier, 2, 3, stepq=8, stept=6) + make_random_jobs(MsgExplore, tier)
 
 
 ASSUMPTIONS = [
